@@ -1,41 +1,44 @@
 """Maintenance tool (NOT run by any check): proposes the failing input classes of a strided-interval
-obligation by repeatedly running the obligation with the classes found so far excluded.
-usage: tools/infer_si_classes.py <fn> <op> <widths...>   -> prints JSON {"classes": [...], "witnesses": [...]}"""
+obligation by repeatedly running it with the classes found so far excluded.
+usage: tools/infer_si_classes.py <fn> <obligation> '<json kwargs>' <widths...>"""
 import json, sys
 sys.path.insert(0, "/verif")
 from vf import common
 from vf.contracts import si
 
 def main():
-    fn, op = sys.argv[1], sys.argv[2]
-    widths = [int(x) for x in sys.argv[3:]]
-    ob = f"si.{op}/gamma"
+    fn, ob, kw = sys.argv[1], sys.argv[2], json.loads(sys.argv[3])
+    widths = [int(x) for x in sys.argv[4:]]
     classes, wits = [], []
-    fake = {"id": "INFER", "property": "C21", "obligation": ob, "classes": classes, "what": "infer"}
-    common.load_findings()["findings"] = [f for f in common.load_findings()["findings"] if f.get("obligation") != ob] + [fake]
+    fake = {"id": "INFER", "property": "C21", "obligations": [ob], "classes": classes, "what": "infer"}
+    fs = common.load_findings()
+    fs["findings"] = [f for f in fs["findings"] if ob not in f.get("obligations", [])] + [fake]
     orig_opts = si._opts
-    si._opts = lambda w, tier, **kw: orig_opts(w, tier, max_failures=400, **kw)
+    si._opts = lambda w, tier, **k: orig_opts(w, tier, **{**k, "max_failures": 400, "budget_s": 1500})
     for w in widths:
         for it in range(40):
-            r = getattr(si, fn)(op=op, w=w)
-            if r.status == "undecided":
-                print(f"# w={w} undecided: {r.reason}", file=sys.stderr); break
+            r = getattr(si, fn)(w=w, **kw)
+            if r.status in ("undecided", "partial"):
+                print(f"# w={w} {r.status}: {r.reason}", file=sys.stderr); break
             if not r.failures:
                 print(f"# w={w} discharged after {it} rounds, paths={r.paths}, classes={len(classes)}", file=sys.stderr); break
             new = 0
             for f in r.failures:
-                if not f.label.endswith("/gamma"):
-                    print("# non-gamma failure", f.label, f.model, file=sys.stderr); continue
                 cl = sorted(k[2:] for k, v in f.model.items() if k.startswith("F_") and v is True)
-                cl = [k for k in cl if not k.endswith("_has0") or op in si.NEEDS_NONZERO]
+                if "shift" not in ob:
+                    cl = [c for c in cl if c != "b_gew"]
+                for n in "ab":
+                    if {f"{n}_wrap", f"{n}_np2"} <= set(cl):
+                        cl = [f"{n}_np2", f"{n}_wrap"]
+                        break
                 if cl not in classes:
                     classes.append(cl); new += 1
-                    wits.append({"w": w, "class": cl, "witness": {k: v for k, v in f.model.items() if not k.startswith("F_")}})
+                    wits.append({"w": w, "class": cl, "label": f.label, "detail": f.detail,
+                                 **{k: v for k, v in f.model.items() if not k.startswith("F_")}})
             print(f"# w={w} round {it}: {len(r.failures)} failures, {new} new classes", file=sys.stderr)
             if new == 0:
                 print("# no progress", file=sys.stderr); break
-    # drop classes subsumed by a more general one
     keep = [c for c in classes if not any(set(o) < set(c) for o in classes)]
-    print(json.dumps({"op": op, "classes": keep, "witnesses": [x for x in wits if x["class"] in keep]}))
+    print(json.dumps({"obligation": ob, "fn": fn, "kwargs": kw, "classes": keep, "witnesses": [x for x in wits if x["class"] in keep]}))
 
 main()
